@@ -135,7 +135,18 @@ func cmpLess(mk func(string, *Term, *Term) *Term, x, y *Term, pos bool) (*Term, 
 	if isCmpCall(x) && y.Op == "const" && y.Name == "1" {
 		return mk("<", swapCmp(x), constTerm("0")), !pos
 	}
+	// emptiness tests: a length is never negative, so 0 < len(x) is !(0 == len(x)) and len(x) < 1 is 0 == len(x)
+	if isLenCall(y) && x.Op == "const" && x.Name == "0" {
+		return mk("==", x, y), !pos
+	}
+	if isLenCall(x) && y.Op == "const" && y.Name == "1" {
+		return mk("==", constTerm("0"), x), pos
+	}
 	return mk("<", x, y), pos
+}
+
+func isLenCall(t *Term) bool {
+	return t.Op == "builtin" && (t.Name == "len" || t.Name == "cap") && len(t.Args) == 1
 }
 
 func isNilConst(t *Term) bool { return t.Op == "const" && t.Name == "nil" }
@@ -682,6 +693,19 @@ func (P *Prog) inlineAtom(a Atom, depth int) []Atom {
 		// a predicate known false: only useful for tiny predicates; expand "every true-return is excluded" is not sound in general
 		return nil
 	}
+	// a helper introduced by a refactoring is rendered over the values of the call site this atom comes from (it
+	// may have several call sites)
+	if c, ok := callT.V.(*ssa.Call); ok && staticCallee(&c.Call) == callee && c.Parent() != callee && P.isNewHelper(callee) {
+		prev, had := helperCtx[callee]
+		setHelperCtx(callee, c)
+		defer func() {
+			if had {
+				helperCtx[callee] = prev
+			} else {
+				delete(helperCtx, callee)
+			}
+		}()
+	}
 	atoms, n := P.SuccessCond(callee, idx, want, depth-1)
 	if n == 0 {
 		return nil
@@ -1002,6 +1026,8 @@ func (P *Prog) EdgeGuards(pred *ssa.BasicBlock, k int) []Atom {
 	return dedupeAtoms(out)
 }
 
+var retAltBusy = map[*ssa.Function]bool{}
+
 // RetAlt is one way a function produces result #idx: the value and the atoms that hold when it is produced.
 type RetAlt struct {
 	T   *Term
@@ -1033,6 +1059,37 @@ func (P *Prog) RetAlternatives(f *ssa.Function, idx int) []RetAlt {
 			}
 			return
 		}
+		// `return helper(x)` / `v, err := helper(x) … return v, err` with a helper introduced by a refactoring: the
+		// alternatives are the helper's, rendered over this function's values
+		var call *ssa.Call
+		ridx := 0
+		if ex, ok := v.(*ssa.Extract); ok {
+			if c, ok := ex.Tuple.(*ssa.Call); ok {
+				call, ridx = c, ex.Index
+			}
+		} else if c, ok := v.(*ssa.Call); ok {
+			call = c
+		}
+		if call != nil && depth < 4 {
+			if h := staticCallee(&call.Call); h != nil && h != f && !retAltBusy[h] && P.isNewHelper(h) && ridx < h.Signature.Results().Len() {
+				prev, had := helperCtx[h]
+				setHelperCtx(h, call)
+				retAltBusy[h] = true
+				sub := P.RetAlternatives(h, ridx)
+				delete(retAltBusy, h)
+				if had {
+					helperCtx[h] = prev
+				} else {
+					delete(helperCtx, h)
+				}
+				if len(sub) > 0 {
+					for _, a := range sub {
+						out = append(out, RetAlt{a.T, dedupeAtoms(append(append([]Atom{}, g...), a.G...)), ret})
+					}
+					return
+				}
+			}
+		}
 		out = append(out, RetAlt{P.TermAt(v, at), g, ret})
 	}
 	for _, ret := range Returns(f) {
@@ -1042,6 +1099,32 @@ func (P *Prog) RetAlternatives(f *ssa.Function, idx int) []RetAlt {
 		expand(ret.Results[idx], ret, P.LocalGuards(ret), ret, 0)
 	}
 	return out
+}
+
+// StoredAlternatives lists the ways value v (used by instruction at) is produced. A call to a single-result helper
+// introduced by a refactoring is split into the helper's return alternatives, rendered over the caller's values
+// with the guards of the call site added (`x = orDefault(x)` reads like `if x == 0 { x = def }`); any other value
+// is its own single alternative under the guards of at.
+func (P *Prog) StoredAlternatives(v ssa.Value, at ssa.Instruction) []RetAlt {
+	if c, ok := v.(*ssa.Call); ok {
+		if h := staticCallee(&c.Call); h != nil && h != c.Parent() && P.isNewHelper(h) && h.Signature.Results().Len() == 1 {
+			prev, had := helperCtx[h]
+			setHelperCtx(h, c)
+			alts := P.RetAlternatives(h, 0)
+			if had {
+				helperCtx[h] = prev
+			} else {
+				delete(helperCtx, h)
+			}
+			if len(alts) > 0 {
+				for i := range alts {
+					alts[i].G = dedupeAtoms(append(append([]Atom{}, alts[i].G...), P.Guards(at, 0)...))
+				}
+				return alts
+			}
+		}
+	}
+	return []RetAlt{{T: P.TermAt(v, at), G: P.Guards(at, 0)}}
 }
 
 // boolEquiv: a test delegated to a single-return boolean function of the repo is equivalent to that function's
